@@ -29,6 +29,10 @@ from cutplace import _compat, _tools, checks, data, errors, fields, rowio
 
 _log = logging.getLogger("cutplace")
 
+#: Modules imported by `import_plugins()`; referring to them here keeps their classes alive even
+#: if a plugin module with the same name is imported from another folder later on.
+_plugin_modules = []
+
 
 class Cid(object):
     _EMPTY_INDICATOR = "x"
@@ -640,6 +644,7 @@ def import_plugins(folder_to_scan_for_plugins):
         loaded_module = importlib.util.module_from_spec(spec)
         # Keep the module alive, otherwise its classes vanish with the next garbage collection.
         sys.modules[module_name_to_import] = loaded_module
+        _plugin_modules.append(loaded_module)
         loader.exec_module(loaded_module)
     current_checks = set(checks.AbstractCheck.__subclasses__())  # @UndefinedVariable
     current_field_formats = set(fields.AbstractFieldFormat.__subclasses__())  # @UndefinedVariable
